@@ -342,6 +342,32 @@ def run(ctx):
                                                                                ("same" if stored[idd][2] == variant
                                                                                 else "different-fit"))])
                     # ---- oracle ----
+                    if after_rs is not None:
+                        # the other readers of the same container (metadata-only loads, the manager)
+                        for reader in ("load(meta_only)", "load_hdf5(meta_only)", "RateManager.get_rates",
+                                       "hdf5_rated"):
+                            with warnings.catch_warnings():
+                                warnings.simplefilter("ignore")
+                                try:
+                                    if reader == "load(meta_only)":
+                                        cnt = len(rio.load(h5, meta_only=True))
+                                    elif reader == "load_hdf5(meta_only)":
+                                        cnt = len(rio.load_hdf5(h5, meta_only=True))
+                                    elif reader == "RateManager.get_rates":
+                                        cnt = len(rio.RateManager(h5).get_rates(which="user"))
+                                    else:
+                                        rio.hdf5_rated(h5, idnt)
+                                        cnt = len(after_rs)
+                                    bad_reader = None if cnt == len(after_rs) else f"returns {cnt} ratings, " \
+                                        f"load_hdf5 {len(after_rs)}"
+                                except BaseException as e:  # noqa
+                                    bad_reader = f"raises {type(e).__name__}: {str(e)[:80]}"
+                            if bad_reader:
+                                ctx.violation(f"reader-disagrees:{reader}:{'failed' if fault is not None else 'complete'}"
+                                              "-save", f"{reader} {bad_reader} after {hist_f[-1]} (failure injected at "
+                                              f"write #{fault}: "
+                                              f"{wc.log[fault] if fault is not None and fault < len(wc.log) else '-'})",
+                                              {"history": hist_f, "observed": bad_reader})
                     if after_rs is None:
                         ctx.violation(f"unreadable-after:{'failed' if fault is not None else 'complete'}-save",
                                       f"container unreadable ({after_load}) after {hist_f[-1]} "
